@@ -15,6 +15,16 @@
 (* the harness that built the cell, never taken from the code under test).                            *)
 (* Pinned = TRUE switches on the deviations of the pinned tree (reads of the byte after the prefix    *)
 (* and of the cell header / first message byte without a length check): outcome "raised".             *)
+(* History: the circuit tables are not a parameter but state with their own actions (RemoveTun =       *)
+(* remove_circuit / remove_relay / remove_exit_socket, Tick = max_time_inactive passes, Sweep =        *)
+(* do_remove); relay routes are installed in pairs and removed ONE BY ONE, so every subset of the      *)
+(* tables is reachable and every cell must be handled in every one of them.  A second receive path:    *)
+(* ExitReceive = a datagram from the outside world arrives at the UDP socket of an enabled exit socket *)
+(* (exit_socket.py: TunnelProtocol.datagram_received -> TunnelExitSocket.datagram_received ->          *)
+(* is_allowed -> DataChecker.* -> tunnel_data).  Dev = set of switched-on deviations (negative          *)
+(* controls): "pair" process_cell indexes the opposite route, "rdv" relay_cell indexes the opposite    *)
+(* route of a rendezvous link (the pinned tree did), "exit" DataChecker reads the second tracker        *)
+(* action field without its own length check.                                                          *)
 EXTENDS Naturals, Sequences, FiniteSets, TLC, SequencesExt
 
 CONSTANTS PL,             \* prefix length (22)
@@ -24,12 +34,19 @@ CONSTANTS PL,             \* prefix length (22)
           ExtendId,       \* message id that needs the relay_early flag (extend = 4)
           MaxRelayEarly,  \* TunnelSettings.max_relay_early (8)
           Pinned,         \* TRUE: behaviour of the pinned tree (negative control)
-          Pkts, Lids, Pfxs, Tuns, MaxOps, MaxRecv   \* exploration universe (model checking only)
+          Dev,            \* subset of {"pair", "rdv", "exit"}: deviations switched on (negative controls); a node has
+                          \* them as desc[o].dev (model checking: one run tries several subsets)
+          Ipv8Versions,   \* second byte of a datagram that "could be IPv8" ({1, 2})
+          Pkts, Lids, Pfxs, Tuns, MaxOps, MaxRecv,  \* exploration universe (model checking only)
+          Vias, XPkts, TunOps                          \* ... datagrams for exit sockets; enabled table actions
 
-VARIABLES desc,     \* listener id -> static description (kind, prefix, handlers, priv, comm, anon, tracked)
+VARIABLES desc,     \* listener id -> static description (kind, prefix, handlers, priv, comm, anon, tracked,
+                    \* xbt, xipv8 = the exit policy of a tunnel overlay, dev = the deviations its code has)
           tab,      \* [glob, pmap, reg, gl] : Endpoint._listeners, Endpoint._prefix_map + abstract registry
           open,     \* Endpoint.is_open()
-          tun,      \* [circuits, exits, relays] of the crypto endpoint; relays : cid -> [dir, count]
+          tun,      \* [circuits, exits, relays, stale, xon] of the crypto endpoint;
+                    \* relays : cid -> [dir, count, to, rdv]; stale : entries <<table, cid>> without activity for
+                    \* more than max_time_inactive; xon : exit sockets with open UDP sockets (enabled)
           last,     \* what the last delivery did: [pkt, via, ft, log] or NoLast
           nops, nrecv
 vars == <<desc, tab, open, tun, last, nops, nrecv>>
@@ -51,6 +68,7 @@ Quiet       == [h |-> <<>>, rel |-> 0, raised |-> FALSE]   \* dropped / unknown 
 Fail        == [h |-> <<>>, rel |-> 0, raised |-> Pinned]  \* too short to look at: dropped (pinned: raises)
 Entered(hs) == [h |-> hs,   rel |-> 0, raised |-> FALSE]   \* handlers entered, in order
 Relayed     == [h |-> <<>>, rel |-> 1, raised |-> FALSE]   \* cell forwarded to the next hop
+Raise(dev)  == [h |-> << <<"x", dev>> >>, rel |-> 0, raised |-> TRUE]    \* only with deviation dev of Dev switched on
 
 (* TunnelCommunity.on_cell -> on_packet_from_circuit on a cell as it is (no decryption): the handler of message  *)
 (* id CellId; it runs inside on_packet's try, so a cell it cannot parse ends there.  An empty message makes       *)
@@ -80,10 +98,17 @@ CellOut(c, p) ==
   IF p.len < HdrLen THEN Fail
   ELSE LET cid == Cid(p) IN
     IF cid \in DOMAIN tun.relays THEN
-         IF Plain(p) THEN Quiet
-         ELSE IF Early(p) /\ tun.relays[cid].count >= MaxRelayEarly THEN Quiet
-         ELSE IF tun.relays[cid].dir = "fwd" /\ p.enc # "valid" THEN Quiet
-         ELSE Relayed
+         \* the opposite route (tun.relays[r.to]) only gets its heart beat / byte count when it still exists;
+         \* the cell is relayed with the keys of THIS route, except on a rendezvous link (re-encrypted with the
+         \* keys of the opposite route: nothing to relay to once that route is gone)
+         LET r == tun.relays[cid]
+             half == r.to \notin DOMAIN tun.relays
+         IN IF half /\ "pair" \in desc[o].dev THEN Raise("pair")
+            ELSE IF Plain(p) THEN Quiet
+            ELSE IF Early(p) /\ r.count >= MaxRelayEarly THEN Quiet
+            ELSE IF r.rdv /\ half THEN (IF "rdv" \in desc[o].dev /\ p.enc = "valid" THEN Raise("rdv") ELSE Quiet)
+            ELSE IF r.dir = "fwd" /\ p.enc # "valid" THEN Quiet
+            ELSE Relayed
     ELSE LET known == cid \in (tun.circuits \cup tun.exits)
              dec   == known /\ ~Plain(p)
          IN IF ~known /\ ~Plain(p) THEN Quiet
@@ -109,6 +134,27 @@ StatsOut(s, p) ==
   THEN IF ~HasId(p) THEN Fail ELSE Entered(<< <<"s", MsgId(p)>> >>)
   ELSE Quiet
 
+(* ------------------------------- the exit socket's own receive path --------------------------- *)
+(* A datagram from the outside: [len, head, lastb].  DataChecker: every look at the bytes is guarded   *)
+(* by a length check of its own (uTP header 20 bytes; tracker action field at 0 needs 8, at 8 needs 12; *)
+(* bencoded dictionary d...e; IPv8: prefix + message id).                                              *)
+Word03(p, off) == p.head[off + 1] = 0 /\ p.head[off + 2] = 0 /\ p.head[off + 3] = 0 /\ p.head[off + 4] <= 3
+CouldBeUtp(p)     == p.len >= 20 /\ (p.head[1] \div 16) <= 4 /\ (p.head[1] % 16) = 1 /\ p.head[2] <= 3
+CouldBeTracker(p) == (p.len >= 8 /\ Word03(p, 0)) \/ (p.len >= 12 /\ Word03(p, 8))
+TrackerOverRead(p) == p.len >= 8 /\ ~Word03(p, 0) /\ p.len < 12
+CouldBeDht(p)     == p.len > 1 /\ p.head[1] = 100 /\ p.lastb = 101
+CouldBeBt(p)      == CouldBeUtp(p) \/ CouldBeTracker(p) \/ CouldBeDht(p)
+CouldBeIpv8(p)    == p.len >= PL + 1 /\ p.head[1] = 0 /\ p.head[2] \in Ipv8Versions
+ExitAllowed(o, p) == \/ CouldBeBt(p) /\ desc[o].xbt
+                     \/ CouldBeIpv8(p) /\ desc[o].xipv8
+                     \/ CouldBeIpv8(p) /\ Pfx(p) = desc[o].prefix
+(* fam: "v4" | "v6" | "v6mapped" (an IPv4-mapped source on the IPv6 socket is ignored: the IPv4 socket has it) *)
+ExitOut(o, p, fam) ==
+  IF fam = "v6mapped" THEN Quiet
+  ELSE IF "exit" \in desc[o].dev /\ TrackerOverRead(p) THEN Raise("exit")
+  ELSE IF ExitAllowed(o, p) THEN Relayed        \* tunnel_data: one data cell back into the circuit
+  ELSE Quiet
+
 Out(l, p) == CASE desc[l].kind = "community" -> CommOut(l, p)
                [] desc[l].kind = "crypto"    -> CryptoOut(l, p)
                [] desc[l].kind = "stats"     -> StatsOut(l, p)
@@ -125,7 +171,8 @@ AddL(T, l) == [glob |-> Append(T.glob, l),
                reg  |-> T.reg, gl |-> T.gl \cup {l}]
 AddP(T, l, pf) == [glob |-> T.glob,
                    pmap |-> [q \in DOMAIN T.pmap \cup {pf} |->
-                               IF q = pf THEN (IF pf \in DOMAIN T.pmap THEN T.pmap[pf] ELSE <<>>) \o <<l>> \o T.glob
+                               IF q = pf THEN (IF pf \in DOMAIN T.pmap THEN T.pmap[pf] \o <<l>>     \* general listeners
+                                               ELSE <<l>> \o T.glob)                             \* are in there already
                                ELSE T.pmap[q]],
                    reg  |-> T.reg \cup {<<l, pf>>}, gl |-> T.gl]
 RemL(T, l) == LET g    == Without(T.glob, l)
@@ -152,6 +199,33 @@ ShouldServe(p) == {r[1] : r \in {x \in tab.reg : x[2] = Pfx(p)}} \cup tab.gl
 Deliver(p, via, ft) == Run(IF via = "udp" THEN UdpTargets(p) ELSE TunTargets(ft), p)
 RelayedIn(log) == \E i \in DOMAIN log : log[i].rel = 1
 
+(* ------------------------------- the circuit tables as state ---------------------------------- *)
+Entries(t) == {<<"c", c>> : c \in t.circuits} \cup {<<"x", c>> : c \in t.exits} \cup {<<"r", c>> : c \in DOMAIN t.relays}
+Of(S, k) == {e[2] : e \in {s \in S : s[1] = k}}
+DropEntries(t, S) == [circuits |-> t.circuits \ Of(S, "c"), exits |-> t.exits \ Of(S, "x"),
+                      relays |-> [c \in DOMAIN t.relays \ Of(S, "r") |-> t.relays[c]],
+                      stale |-> t.stale \ S, xon |-> t.xon \ Of(S, "x")]
+TickOf(t)  == [t EXCEPT !.stale = Entries(t)]          \* more than max_time_inactive passes, nothing arrives
+SweepOf(t) == DropEntries(t, t.stale)                  \* do_remove + remove_tunnel_delay
+(* the datagram is a cell for a relay route whose opposite route is gone *)
+HalfAt(t, p) == /\ p.len >= HdrLen /\ Cid(p) \in DOMAIN t.relays /\ t.relays[Cid(p)].to \notin DOMAIN t.relays
+(* process_cell ran on this datagram (the crypto endpoint was served, own prefix, cell id, whole header) *)
+CellProcessed(log, p) == \E i \in DOMAIN log :
+                            /\ desc[log[i].l].kind = "crypto" /\ ~log[i].raised
+                            /\ Pfx(p) = desc[desc[log[i].l].comm].prefix /\ HasId(p) /\ MsgId(p) = CellId /\ p.len >= HdrLen
+HandlerIn(log) == \E i \in DOMAIN log : desc[log[i].l].kind = "crypto" /\ log[i].h # <<>>
+(* heart beats and the relay_early budget: a cell for a relay keeps the OPPOSITE route alive (if there is one)  *)
+(* whatever relay_cell then does with it; a cell that reached the community keeps its circuit alive              *)
+TunAfter(log, p) ==
+  IF ~CellProcessed(log, p) THEN tun
+  ELSE LET cid == Cid(p) IN
+       IF cid \in DOMAIN tun.relays
+       THEN LET t1 == IF RelayedIn(log) THEN [tun EXCEPT !.relays[cid].count = @ + 1] ELSE tun
+            IN [t1 EXCEPT !.stale = @ \ {<<"r", tun.relays[cid].to>>}]
+       ELSE IF cid \in tun.circuits /\ cid \notin tun.exits /\ HandlerIn(log)
+            THEN [tun EXCEPT !.stale = @ \ {<<"c", cid>>}]
+       ELSE tun
+
 (* ------------------------------- actions ------------------------------------------------------ *)
 AddListener(l) ==
   /\ nops < MaxOps /\ nrecv = 0 /\ nops' = nops + 1
@@ -177,9 +251,30 @@ SetTables(t) ==
 Receive(p, via, ft) ==
   /\ nrecv < MaxRecv /\ nrecv' = nrecv + 1
   /\ LET log == Deliver(p, via, ft) IN
-       /\ last' = [via |-> via, ft |-> ft, pkt |-> p, log |-> log, should |-> ShouldServe(p), open |-> open]
-       /\ tun' = IF RelayedIn(log) THEN [tun EXCEPT !.relays[Cid(p)].count = @ + 1] ELSE tun
+       /\ last' = [via |-> via, ft |-> ft, pkt |-> p, log |-> log, should |-> ShouldServe(p), open |-> open,
+                    half |-> HalfAt(tun, p)]
+       /\ tun' = TunAfter(log, p)
   /\ UNCHANGED <<desc, tab, open, nops>>
+(* remove_circuit / remove_relay / remove_exit_socket: ONE entry goes (a relay pair is not removed together) *)
+RemoveTun(e) ==
+  /\ e \in Entries(tun)
+  /\ tun' = DropEntries(tun, {e}) /\ last' = NoLast       \* (no delivery yet since the tables changed)
+  /\ UNCHANGED <<desc, tab, open, nops, nrecv>>
+Tick ==
+  /\ tun' = TickOf(tun) /\ tun' # tun /\ last' = NoLast
+  /\ UNCHANGED <<desc, tab, open, nops, nrecv>>
+Sweep ==
+  /\ tun' = SweepOf(tun) /\ tun' # tun /\ last' = NoLast
+  /\ UNCHANGED <<desc, tab, open, nops, nrecv>>
+(* a datagram from the outside world at the socket of exit x of tunnel overlay o *)
+ExitReceive(o, x, p, fam) ==
+  /\ nrecv < MaxRecv /\ nrecv' = nrecv + 1
+  /\ desc[o].kind = "community" /\ desc[o].priv # {}
+  /\ x \in tun.xon
+  /\ LET r == ExitOut(o, p, fam) IN
+       last' = [via |-> "exit", ft |-> FALSE, pkt |-> p, should |-> {}, open |-> TRUE, half |-> FALSE,
+                log |-> << [l |-> o, h |-> r.h, rel |-> r.rel, raised |-> r.raised] >>]
+  /\ UNCHANGED <<desc, tab, open, tun, nops>>
 
 (* the quantifiers sit behind the bounds so that TLC does not enumerate Pkts in states where nothing is enabled *)
 DoAdd       == nops < MaxOps /\ \E l \in Lids : AddListener(l)
@@ -187,13 +282,24 @@ DoAddPrefix == nops < MaxOps /\ \E l \in Lids, pf \in Pfxs : AddPrefixListener(l
 DoRemove    == nops < MaxOps /\ \E l \in Lids : RemoveListener(l)
 DoSetOpen   == nops < MaxOps /\ \E b \in BOOLEAN : SetOpen(b)
 DoSetTables == nrecv < MaxRecv /\ \E t \in Tuns : SetTables(t)
-DoReceive   == nrecv < MaxRecv /\ \E p \in Pkts, v \in {<<"udp", FALSE>>, <<"tunnel", FALSE>>, <<"tunnel", TRUE>>} :
+DoReceive   == nrecv < MaxRecv /\ \E p \in Pkts, v \in Vias :
                                     Receive(p, v[1], v[2])
+DoRemoveTun == "rm" \in TunOps /\ nrecv < MaxRecv /\ \E e \in Entries(tun) : RemoveTun(e)
+DoTick      == "tick" \in TunOps /\ nrecv < MaxRecv /\ Tick
+DoSweep     == "sweep" \in TunOps /\ nrecv < MaxRecv /\ Sweep
+DoExitReceive == nrecv < MaxRecv /\ \E o \in DOMAIN desc, x \in tun.xon, p \in XPkts, fam \in {"v4", "v6", "v6mapped"} :
+                                       ExitReceive(o, x, p, fam)
 Next == DoAdd \/ DoAddPrefix \/ DoRemove \/ DoSetOpen \/ DoSetTables \/ DoReceive
+        \/ DoRemoveTun \/ DoTick \/ DoSweep \/ DoExitReceive
 
 (* ------------------------------- properties --------------------------------------------------- *)
 Served == {last.log[i].l : i \in DOMAIN last.log}
 Total == last.via # "none" => \A i \in DOMAIN last.log : ~last.log[i].raised
+(* Total, per deviation (several negative controls in one TLC run) *)
+TotalAt(dev) == last.via # "none" => \A i \in DOMAIN last.log : ~(last.log[i].raised /\ last.log[i].h = << <<"x", dev>> >>)
+TotalPair == TotalAt("pair")
+TotalRdv  == TotalAt("rdv")
+TotalExit == TotalAt("exit")
 PrefixIsolation ==
   last.via # "none" =>
     \A i \in DOMAIN last.log : \A j \in DOMAIN last.log[i].h :
@@ -207,6 +313,8 @@ OnlyRegisteredIds ==
 AllListenersServed ==
   (last.via = "udp" /\ last.open) => last.should \subseteq Served
 NothingWhenClosed == (last.via # "none" /\ ~last.open) => last.log = <<>>
+TunOK == /\ tun.stale \subseteq Entries(tun)
+         /\ tun.xon \subseteq tun.exits
 TableOK == /\ Range(tab.glob) = tab.gl
            /\ \A pf \in DOMAIN tab.pmap : Len(pf) = PL
            /\ \A r \in tab.reg : r[2] \in DOMAIN tab.pmap \/ {x[1] : x \in {y \in tab.reg : y[2] = r[2]}} \subseteq tab.gl
